@@ -188,9 +188,26 @@ func Digests(thorough bool) []part {
 		{"sha256:" + HexN(1, false), RejDigest, "1-hex"},
 		{"sha256:", RejDigest, "0-hex"},
 		{"sha256:" + strings.Repeat("g", 64), RejDigest, "non-hex"},
+		// the algorithm: letter-led alphanumeric components joined by exactly one of + . _ -
+		{"sha256+b64:" + HexN(64, false), Accept, "algo-two-components"},
+		{"a-b_c.d:" + HexN(32, false), Accept, "algo-every-separator"},
+		{"sha256@sha512:" + HexN(64, false), RejDigest, "algo-sep-at"},
+		{"sha256:extra:" + HexN(64, false), RejDigest, "algo-sep-colon"},
+		{"sha256=b64:" + HexN(64, false), RejDigest, "algo-sep-equals"},
+		{"sha256/b64:" + HexN(64, false), RejDigest, "algo-sep-slash"},
 	}
 	if thorough {
 		d = append(d,
+			part{"sha256,b64:" + HexN(64, false), RejDigest, "algo-sep-comma"},
+			part{"sha256;b64:" + HexN(64, false), RejDigest, "algo-sep-semicolon"},
+			part{"sha256^b64:" + HexN(64, false), RejDigest, "algo-sep-caret"},
+			part{"sha256[b64:" + HexN(64, false), RejDigest, "algo-sep-bracket"},
+			part{"sha256?b64:" + HexN(64, false), RejDigest, "algo-sep-question"},
+			part{"sha256<b64:" + HexN(64, false), RejDigest, "algo-sep-less"},
+			part{"sha256++b64:" + HexN(64, false), RejDigest, "algo-sep-doubled"},
+			part{"sha256+:" + HexN(64, false), RejDigest, "algo-sep-trailing"},
+			part{"256sha:" + HexN(64, false), RejDigest, "algo-leading-digit"},
+			part{"sha256+1b:" + HexN(64, false), RejDigest, "algo-component-leading-digit"},
 			part{"blake3:" + HexN(64, false), Accept, "other-algo"},
 			part{"sha256:" + HexN(32, false), Accept, "32-hex"},
 			part{"sha512:" + HexN(31, false), RejDigest, "31-hex"},
